@@ -1,151 +1,214 @@
 package c02
 
 import (
+	"errors"
 	"strings"
 
+	zed "github.com/brimdata/super"
 	astzed "github.com/brimdata/super/compiler/ast/zed"
+	"github.com/brimdata/super/zcode"
 	"github.com/brimdata/super/zson"
 )
 
 // The ZSON spec resolves type names in text order (docs/formats/zson.md 2.5.8:
 // "the new type name may be referenced by any subsequent value in left-to-right
 // depth-first order", redefinitions "resolve to the most recent definition").
-// zson.Analyzer instead converts a decorator *before* the value it decorates
-// (with two special cases that pre-enter directly nested typedefs).  The
-// orderWalker replays both orders over the syntax tree produced by the repo's
-// own parser and tells whether they bind any reference, or leave any name,
-// differently.  It is used only to *classify* an observed round-trip failure:
-// if the text means different things in the two orders, the failure is the
-// analyzer's evaluation order and not (necessarily) the formatter.
-type orderWalker struct {
-	analyzerOrder bool
-	defs          map[string]any           // name -> defining node
-	refs          map[*astzed.TypeName]any // reference -> defining node (nil: unresolved)
+// zson.Analyzer instead converts a decorator *before* the value it decorates, so
+// for some texts it binds names differently than the text says.
+//
+// readTextOrder reads ZSON text the way the spec says, reusing the repo's own
+// parser (syntax), analyzer and builder: the syntax tree is first made
+// independent of evaluation order by replacing every type-name *reference* with
+// the full definition it resolves to in text order (re-stating name=T where the
+// name is currently bound to T changes nothing).  What is left has no
+// reference across a value/decorator boundary, so the analyzer's own order no
+// longer matters.
+//
+// It is used only to classify an observed round-trip failure: if the text, read
+// in text order, gives back exactly the values that were written, the formatter
+// did its job and the failure is the analyzer's evaluation order.
+func readTextOrder(text string) ([]zed.Value, error) {
+	p := zson.NewParser(strings.NewReader(text))
+	e := &expander{defs: map[string]astzed.Type{}, scratch: zed.NewContext()}
+	zctx := zed.NewContext()
+	analyzer := zson.NewAnalyzer()
+	var out []zed.Value
+	for {
+		ast, err := p.ParseValue()
+		if err != nil {
+			return out, err
+		}
+		if ast == nil {
+			return out, nil
+		}
+		ast = e.value(ast)
+		if e.err != nil {
+			return out, e.err
+		}
+		val, err := analyzer.ConvertValue(zctx, ast)
+		if err != nil {
+			return out, err
+		}
+		v, err := zson.Build(zcode.NewBuilder(), val)
+		if err != nil {
+			return out, err
+		}
+		out = append(out, v.Copy())
+	}
 }
 
-func newOrderWalker(analyzerOrder bool) *orderWalker {
-	return &orderWalker{analyzerOrder: analyzerOrder, defs: map[string]any{}, refs: map[*astzed.TypeName]any{}}
+type expander struct {
+	defs       map[string]astzed.Type // name -> its current definition, fully expanded (a TypeDef)
+	scratch    *zed.Context
+	syntaxOnly bool // only track which names are defined (refsFollowDefs)
+	err        error
 }
 
-func (w *orderWalker) value(v astzed.Value) {
+func (e *expander) value(v astzed.Value) astzed.Value {
 	switch v := v.(type) {
 	case *astzed.ImpliedValue:
-		w.any(v.Of)
+		return &astzed.ImpliedValue{Kind: "ImpliedValue", Of: e.any(v.Of)}
 	case *astzed.DefValue:
-		w.any(v.Of)
-		w.defs[v.TypeName] = v
+		of := e.any(v.Of)
+		if e.syntaxOnly {
+			e.defs[v.TypeName] = &astzed.TypeName{Kind: "TypeName", Name: v.TypeName}
+			return v
+		}
+		if e.err != nil {
+			return v
+		}
+		// v (=name): name is bound to the type of v.  The formatter writes
+		// this only for self-describing values, so v can be typed on its own.
+		val, err := zson.NewAnalyzer().ConvertValue(e.scratch, &astzed.ImpliedValue{Kind: "ImpliedValue", Of: of})
+		if err != nil {
+			e.err = err
+			return v
+		}
+		named, err := e.scratch.LookupTypeNamed(v.TypeName, val.TypeOf())
+		if err != nil {
+			e.err = err
+			return v
+		}
+		def := e.typeAST(named)
+		e.defs[v.TypeName] = def
+		// Spelled as v (name=T): the analyzer mishandles v (=name) under an
+		// enclosing decorator (a separate finding).
+		return &astzed.CastValue{Kind: "CastValue", Of: &astzed.ImpliedValue{Kind: "ImpliedValue", Of: of}, Type: def}
 	case *astzed.CastValue:
-		if !w.analyzerOrder {
-			w.value(v.Of)
-			w.typ(v.Type)
-			return
-		}
-		// Analyzer.convertValue
-		switch of := v.Of.(type) {
-		case *astzed.DefValue:
-			w.value(of)
-		case *astzed.CastValue:
-			w.typ(of.Type)
-		}
-		w.typ(v.Type)
-		w.value(v.Of)
+		// text order: the value, then its decorator
+		of := e.value(v.Of)
+		typ := e.typ(v.Type)
+		return &astzed.CastValue{Kind: "CastValue", Of: of, Type: typ}
 	}
+	e.err = errors.New("unknown value node")
+	return v
 }
 
-func (w *orderWalker) any(a astzed.Any) {
+// typeAST renders a type as a syntax tree with every name defined in place.
+func (e *expander) typeAST(t zed.Type) astzed.Type {
+	ast, err := zson.NewParser(strings.NewReader("null(" + zson.FormatType(t) + ")")).ParseValue()
+	if err == nil {
+		if c, ok := ast.(*astzed.CastValue); ok {
+			return c.Type
+		}
+		err = errors.New("type text did not parse as a decorator")
+	}
+	e.err = err
+	return nil
+}
+
+func (e *expander) any(a astzed.Any) astzed.Any {
 	switch a := a.(type) {
 	case *astzed.Record:
-		for _, f := range a.Fields {
-			w.value(f.Value)
+		out := &astzed.Record{Kind: "Record", Fields: make([]astzed.Field, len(a.Fields))}
+		for i, f := range a.Fields {
+			out.Fields[i] = astzed.Field{Name: f.Name, Value: e.value(f.Value)}
 		}
+		return out
 	case *astzed.Array:
-		for _, e := range a.Elements {
-			w.value(e)
+		out := &astzed.Array{Kind: "Array", Elements: make([]astzed.Value, len(a.Elements))}
+		for i, el := range a.Elements {
+			out.Elements[i] = e.value(el)
 		}
+		return out
 	case *astzed.Set:
-		for _, e := range a.Elements {
-			w.value(e)
+		out := &astzed.Set{Kind: "Set", Elements: make([]astzed.Value, len(a.Elements))}
+		for i, el := range a.Elements {
+			out.Elements[i] = e.value(el)
 		}
+		return out
 	case *astzed.Map:
-		for _, e := range a.Entries {
-			w.value(e.Key)
-			w.value(e.Value)
+		out := &astzed.Map{Kind: "Map", Entries: make([]astzed.Entry, len(a.Entries))}
+		for i, en := range a.Entries {
+			k := e.value(en.Key)
+			out.Entries[i] = astzed.Entry{Key: k, Value: e.value(en.Value)}
 		}
+		return out
 	case *astzed.TypeValue:
-		w.typ(a.Value)
+		return &astzed.TypeValue{Kind: "TypeValue", Value: e.typ(a.Value)}
 	case *astzed.Error:
-		w.value(a.Value)
+		return &astzed.Error{Kind: "Error", Value: e.value(a.Value)}
 	}
+	return a
 }
 
-func (w *orderWalker) typ(t astzed.Type) {
+func (e *expander) typ(t astzed.Type) astzed.Type {
 	switch t := t.(type) {
 	case *astzed.TypeDef:
-		w.typ(t.Type)
-		w.defs[t.Name] = t
+		def := &astzed.TypeDef{Kind: "TypeDef", Name: t.Name, Type: e.typ(t.Type)}
+		e.defs[t.Name] = def
+		return def
 	case *astzed.TypeName:
-		w.refs[t] = w.defs[t.Name]
+		def, ok := e.defs[t.Name]
+		if !ok {
+			if e.err == nil {
+				e.err = errors.New("reference to type name " + t.Name + " before any definition in the text")
+			}
+			return t
+		}
+		return def
 	case *astzed.TypeRecord:
-		for _, f := range t.Fields {
-			w.typ(f.Type)
+		out := &astzed.TypeRecord{Kind: "TypeRecord", Fields: make([]astzed.TypeField, len(t.Fields))}
+		for i, f := range t.Fields {
+			out.Fields[i] = astzed.TypeField{Name: f.Name, Type: e.typ(f.Type)}
 		}
+		return out
 	case *astzed.TypeArray:
-		w.typ(t.Type)
+		return &astzed.TypeArray{Kind: "TypeArray", Type: e.typ(t.Type)}
 	case *astzed.TypeSet:
-		w.typ(t.Type)
+		return &astzed.TypeSet{Kind: "TypeSet", Type: e.typ(t.Type)}
 	case *astzed.TypeMap:
-		w.typ(t.KeyType)
-		w.typ(t.ValType)
+		k := e.typ(t.KeyType)
+		return &astzed.TypeMap{Kind: "TypeMap", KeyType: k, ValType: e.typ(t.ValType)}
 	case *astzed.TypeUnion:
-		for _, m := range t.Types {
-			w.typ(m)
+		out := &astzed.TypeUnion{Kind: "TypeUnion", Types: make([]astzed.Type, len(t.Types))}
+		for i, m := range t.Types {
+			out.Types[i] = e.typ(m)
 		}
+		return out
 	case *astzed.TypeError:
-		w.typ(t.Type)
+		return &astzed.TypeError{Kind: "TypeError", Type: e.typ(t.Type)}
 	}
+	return t
 }
 
-func parseAll(text string) ([]astzed.Value, bool) {
+// refsFollowDefs reports whether, in text order, every type-name reference in
+// text is preceded by a definition of that name (a value before its decorators,
+// fields and elements left to right).  With it a `no such type name` error of
+// the analyzer can be told from a formatter that really wrote a dangling
+// reference, even when the text trips over further analyzer defects that keep
+// readTextOrder from reading it.
+func refsFollowDefs(text string) bool {
 	p := zson.NewParser(strings.NewReader(text))
-	var out []astzed.Value
+	e := &expander{defs: map[string]astzed.Type{}, syntaxOnly: true}
 	for {
 		v, err := p.ParseValue()
 		if err != nil {
-			return out, false
+			return false
 		}
 		if v == nil {
-			return out, true
+			return e.err == nil
 		}
-		out = append(out, v)
+		e.value(v)
 	}
-}
-
-// orderSensitive returns the index of the first top-level value of text after
-// which text order and analyzer order disagree (on a reference made so far or
-// on the binding of a name), provided the text is well-formed in text order up
-// to there (no dangling reference).
-func orderSensitive(text string) (int, bool) {
-	vals, ok := parseAll(text)
-	if !ok {
-		return 0, false
-	}
-	a, b := newOrderWalker(false), newOrderWalker(true)
-	for i, v := range vals {
-		a.value(v)
-		b.value(v)
-		for ref, site := range a.refs {
-			if site == nil {
-				return 0, false // dangling in text order: the writer's fault
-			}
-			if b.refs[ref] != site {
-				return i, true
-			}
-		}
-		for name, site := range a.defs {
-			if b.defs[name] != site {
-				return i, true
-			}
-		}
-	}
-	return 0, false
 }
